@@ -127,6 +127,17 @@ func RandomSched(r *rand.Rand) simrt.Config {
 	// bias pool width to small values so that the refill branch of the worker pools runs
 	c.NumCPU = []int{1, 1, 2, 2, 3, 4, 6, 8, 16, 20}[r.Intn(10)]
 	c.MapPolicy = []string{"sorted", "reversed", "random", "random"}[r.Intn(4)]
+	if r.Intn(2) == 0 {
+		// every read-side file-system call of the server is a scheduling point in this run
+		c.Knobs = map[string]int{"fsyield": 1}
+	}
+	if r.Intn(3) == 0 {
+		// a few per mille of the server's functions (chosen by the schedule seed) yield at entry
+		if c.Knobs == nil {
+			c.Knobs = map[string]int{}
+		}
+		c.Knobs["fnyield"] = 2 + r.Intn(7)
+	}
 	return c
 }
 
